@@ -296,6 +296,8 @@ class GEngine(object):
                 self.stats["harness_errors"] += 1
                 self.harness_error_samples.append(("minimised history did not replay", json.dumps(small)[:400]))
                 continue
+            # put the violation of this class first (a run can show several)
+            conf["violations"].sort(key=lambda x: 0 if minimise.vclass(x) == cls else 1)
             sig = self.signature(small, conf)
             if sig in seen_sigs:
                 continue
